@@ -148,6 +148,7 @@ func features(ser string) sqlgen.Features {
 	f.DDL = hx.Allowed("c06.ddl")
 	f.QuotedDDLNames = hx.Allowed("c06.ddl_quoted_names")
 	f.IndexNulls = hx.Allowed("c06.index_nulls")
+	f.DDLExtras = hx.Allowed("c06.ddl_extras")
 	if ser == "cli" && !hx.Allowed("c06.cli.unimplemented_clauses") {
 		// listed finding: the CLI formatter's own statement printers drop clauses
 		// they do not implement; steer the cli serialiser around exactly those
